@@ -3009,7 +3009,12 @@ class Interp:
                 if any(isinstance(v, Unk) for v in a):
                     return Unk('searchsorted', e)
                 side_ = kw.get('side', args[2] if len(args) > 2 else 'left')
-                if side_ not in ('left', 'right') or kw.get('sorter') is not None:
+                so_ = kw.get('sorter', args[3] if len(args) > 3 else None)
+                if so_ is not None and side_ == 'left' and isinstance(so_, Arr) and a[0].ndim == 1 and a[0].dims[0] and so_.dims == a[0].dims \
+                        and so_.poly == alg.array_fn('argsort', a[0].dims[0], a[0].poly):
+                    # searched through its own argsort: the rank of the query among the sorted keys
+                    return Arr(a[1].dims, alg.mk_fn('rank', B(a[0].dims[0], a[0].poly), P(a[1].poly)), unit=num(1))
+                if side_ not in ('left', 'right') or so_ is not None:
                     return Unk('searchsorted with side=%r / sorter' % (side_,), e)
                 extra_ = [C('right')] if side_ == 'right' else []          # side='right' counts the knots that are <= the query, side='left' those that are <
                 return Arr(a[1].dims, alg.mk_fn('searchsorted', B(a[0].dims[0] if a[0].ndim else None, a[0].poly), P(a[1].poly), *extra_), unit=num(1))
